@@ -1,4 +1,62 @@
-import AdfModel.Api
+/-
+  C08 — Graceful exhaustion: the allocator's side of it.
+  The library asks for blocks through adfGetFreeBlocks (one block, or extension block + data block together).
+  Theorems (for the model's `getFreeBlocks`, i.e. for every volume state, any number of blocks):
+   * all-or-nothing: when it reports failure NOTHING has changed — no device access, no change of the in-memory
+     bitmap (so a failed allocation leaks nothing and the caller can report "volume full" with the state intact);
+   * it fails only when the volume really has fewer free blocks than requested (C04_scan_complete), and
+     succeeds whenever enough are free (C04_scan_succeeds): after entries are deleted the freed space can be
+     allocated again to the same capacity.
+  NOT proved (MANIFEST): that every caller's failure branch leaves the abstract state unchanged; the exhaustion
+  profiles of tools/props/C08.py judge that on the real code.
+-/
+import AdfProofs.BitmapLemmas
+import AdfProofs.ProgLemmas
+import AdfProps.C04
 namespace Adf.C08
-theorem C08_placeholder : True := trivial
+open Adf
+
+theorem run_then_pure_ne {β α : Type} (c : Cfg) (p : Prog β) (a : α) (s : St) (x : α) (hx : x ≠ a) :
+    (run c (p >>= fun _ => (pure a : Prog α)) s).1 ≠ Res.ok x := by
+  rw [run_bind']
+  rcases run c p s with ⟨r, s'⟩
+  cases r with
+  | ok b => simp only [run_pure']; intro h; injection h with h; exact hx h.symm
+  | fault f => intro h; cases h
+
+/-- a failed allocation changes nothing: same disk, same trace, same memory -/
+theorem C08_alloc_all_or_nothing (c : Cfg) (v nb : Nat) (s : St)
+    (h : (run c (getFreeBlocks v nb) s).1 = Res.ok none) :
+    (run c (getFreeBlocks v nb) s).2 = s := by
+  unfold getFreeBlocks at *
+  simp only [run_bind', run_getVolCfg, run_getVolMem] at *
+  split at h
+  · simp at h
+  · rename_i hg
+    rw [if_neg hg] at ⊢
+    split at h
+    · exfalso
+      exact run_then_pure_ne c _ _ s none (by simp) h
+    · rename_i hl
+      rw [if_neg hl]
+      rfl
+
+/-- a failed allocation means the volume has fewer than `nb` free blocks (in terms of the pure scan) -/
+theorem C08_fails_only_when_full (tbl : List Blk) (root last nb : Nat) (hroot : 2 < root) (hr : root ≤ last)
+    (hfail : (scanFree tbl root last (last + 2) root nb).length ≠ nb) :
+    ((circ root last).filter (bmIsFree tbl)).length < nb := by
+  have hle := (C04.C04_alloc_contract tbl root last (last + 2) nb hroot hr (by omega)).2.2
+  have hlt : (scanFree tbl root last (last + 2) root nb).length < nb := by omega
+  rw [scanFree_eq, scanSeq_full root last (last + 2) hroot hr (by omega), List.length_take] at hlt
+  omega
+
+/-- and conversely: with enough free blocks the request is served (refill to the same capacity) -/
+theorem C08_serves_when_possible (tbl : List Blk) (root last nb : Nat) (hroot : 2 < root) (hr : root ≤ last)
+    (h : nb ≤ ((circ root last).filter (bmIsFree tbl)).length) :
+    (scanFree tbl root last (last + 2) root nb).length = nb :=
+  C04.C04_scan_succeeds tbl root last (last + 2) nb hroot hr (by omega) h
+
+/-- witness: the 40-block table of C04 has 36 free blocks: 36 can be had, 37 cannot -/
+example : (scanFree C04.smallTbl 20 39 41 20 36).length = 36 ∧ (scanFree C04.smallTbl 20 39 41 20 37).length ≠ 37 := by decide
+
 end Adf.C08
